@@ -525,3 +525,50 @@ BASE_DOCS = [None, 't', '1', 's', [], (), ['1'], ['1', '1'], ['1', 's'], [None],
              [(('a', '1'), ('b', 's'), ('c', 't')), (('b', 's'),)], [(('b', 's'),), (('a', '1'), ('b', 's'), ('c', 't'))],
              [(), (), ()], [[], '1'], [(), '1'], [['1'], ['1', '1']], [['1', 's'], ['s', '1']],
              [['1', 's'], ['1', 's', 't']], [[['1']]], [[[]]], (('a', (('a', (('a', '1'),)),)),)]
+
+# ------------------------------------------------------------------ text renderings of documents
+WS = [' ', '\t', '\n', '\r\n', '', '', '', ' ']
+NUMS = ['0', '-0', '1', '-12', '3.5', '0.001', '1e5', '1E+5', '2e-3', '-1.25E-7', '123456789012345678901234567890', '1.0e0']
+STRS = ['', 's', 'abc def', '\\n', '\\"', '\\\\', '\\/', '\\b\\f\\r\\t', '\\u00e9', '\\uD83D\\uDE00', 'é', '日本語', '😀', 'a\\u0000b', '{[,:]}']
+
+def render_text(rng, d, ws=WS, keyf=None):
+    """a random valid JSON rendering of document d (kinds preserved; values, formatting vary)"""
+    def w():
+        return rng.choice(ws)
+    def go(d):
+        if d is None:
+            return 'null'
+        if d == 't':
+            return rng.choice(['true', 'false'])
+        if d == '1':
+            return rng.choice(NUMS)
+        if d == 's':
+            return '"' + rng.choice(STRS) + '"'
+        if isinstance(d, list):
+            return '[' + w() + (',' + w()).join(go(e) + w() for e in d) + ']'
+        items = []
+        for k, v in d:
+            ks = k if isinstance(k, str) else k.decode()
+            if keyf:
+                ks = keyf(ks)
+            items.append('"' + ks + '"' + w() + ':' + w() + go(v) + w())
+        return '{' + w() + (',' + w()).join(items) + '}'
+    return w() + go(d) + w()
+
+def subdocs(d, acc):
+    acc.append(d)
+    if isinstance(d, list):
+        for e in d:
+            subdocs(e, acc)
+    elif isinstance(d, tuple):
+        for _, v in d:
+            subdocs(v, acc)
+    return acc
+
+def nodup_doc(d):
+    if isinstance(d, list):
+        return all(nodup_doc(e) for e in d)
+    if isinstance(d, tuple):
+        ks = [kb(k) for k, _ in d]
+        return len(set(ks)) == len(ks) and all(nodup_doc(v) for _, v in d)
+    return True
